@@ -34,6 +34,11 @@ Branches found in the code beyond the DESIGN alphabet:
 * a jitter mesh truncated by the +-360 degree limits, and |cos(dtheta)| beyond 90 degrees;
 * a single-point jitter mesh (npts=1) with a non-zero width: weights.Dispersion.get_weights special-cases
   npts < 2 and must return {0}, not {view angle}, for the absolute-width (orientation) parameters.
+* the dispersity cutoff acts on (product of distribution weights) x |cos(dtheta)| and the rotation is built
+  inside the `weight > cutoff` branch: dimension "cutoff" {1e-5, a value cutting 3-sigma gaussian tails} plus a
+  "cutoff family" (kind "cutfam", both tiers, full product: jitter in theta / phi / theta+phi / psi / all three x
+  jitter mesh {3, 5 points} x size mesh {9, 35, 3, 2 points: longer and shorter than the jitter mesh, i.e. both
+  loop nestings} x both cutoffs).  A weight that ties with the cutoff to rounding is inconclusive.
 An EMPTY angle mesh (e.g. rectangle, npts=2, nsigmas=3) is not a mesh of jitter angles and is not
 enumerated.
 """
@@ -73,7 +78,8 @@ BOUNDS = {
               "psi": "base generic; {0, 90}",
               "jitter": "per angle: {gaussian, uniform, rectangle, boltzmann} x npts {2,3,5} x width {5, 40} deg "
                         "+ one mesh truncated by the +-360 limits + a single-point mesh (npts=1) with width 10",
-              "size": "first / last volume parameter dispersed / as many as there are dispersity loops left", "kernel": "Iqxy; Imagnetic driven with M0=1e-300",
+              "size": "first (3 or 9 points) / last volume parameter dispersed / as many as there are dispersity loops left",
+              "cutoff": "0; {1e-5, ~0.02 seed-rotated}; + cutoff family: angle sets x jitter {3,5 pts} x size {9,35,3,2 pts} x cutoffs", "kernel": "Iqxy; Imagnetic driven with M0=1e-300",
               "q": "17 detector points: 4 orbits under 90-degree rotation (quadrants, half-axes) + near-origin",
               "unoriented": "14 models", "oned": "all 21 oriented models"},
     "thorough": {"models": "all 21 oriented models", "D": 3, "alphabet": "as quick",
@@ -81,6 +87,11 @@ BOUNDS = {
                  "oned": "all 21 oriented models"},
 }
 CASE_TIMEOUT = 900
+CUTOFF_TAILS = (0.0213, 0.0187, 0.0231, 0.0173, 0.0247, 0.0199, 0.0223, 0.0161)
+# cutoff family (both tiers, full product): jitter angle sets x jitter meshes x size meshes x cutoffs
+CUTFAM_JITTER = [["gaussian", 3, 40.0], ["gaussian", 5, 5.0]]
+CUTFAM_SIZE = [["first", "gaussian", 9, 0.15], ["first", "gaussian", 35, 0.15], ["first", "gaussian", 3, 0.15],
+               ["last", "schulz", 2, 0.2]]
 
 SCALE, BACKGROUND = 1.7, 0.0
 UNORIENTED_QUICK = ["sphere", "core_shell_sphere", "fuzzy_sphere", "vesicle", "lamellar", "flexible_cylinder",
@@ -111,7 +122,7 @@ def _gen(ctx, key, k=0):
 
 def base_cfg(ctx):
     return {"theta": _gen(ctx, "theta"), "phi": _gen(ctx, "phi"), "psi": _gen(ctx, "psi"),
-            "jtheta": None, "jphi": None, "jpsi": None, "size": None, "kernel": "nuc"}
+            "jtheta": None, "jphi": None, "jpsi": None, "size": None, "kernel": "nuc", "cutoff": 0.0}
 
 
 def alternatives(ctx, dim):
@@ -132,9 +143,15 @@ def alternatives(ctx, dim):
     if dim == "size":
         # "fill": as many volume parameters dispersed as there are dispersity loops left, so that an angle WITHOUT
         # jitter gets no loop slot and the kernel's "jitter defaults to zero" reset is what is observed
-        return [["first", "gaussian", 3, 0.15], ["last", "schulz", 2, 0.2], ["fill", "gaussian", 2, 0.1]]
+        # 9 points: MORE than any jitter mesh (2, 3, 5), so the size loop is the innermost one; 3 and 2 points: fewer
+        return [["first", "gaussian", 3, 0.15], ["last", "schulz", 2, 0.2], ["fill", "gaussian", 2, 0.1],
+                ["first", "gaussian", 9, 0.15]]
     if dim == "kernel":
         return ["mag"]
+    if dim == "cutoff":
+        # DirectModel's default, and a value that cuts the tails of a 3-sigma gaussian (not a round number, so
+        # that no product of uniform weights 1/2, 1/3, 1/5 ties with it)
+        return [1e-5, ctx.rot(CUTOFF_TAILS)]
     raise HarnessError("unknown dimension %r" % dim)
 
 
@@ -144,6 +161,7 @@ def dims_of(info):
     d += ["size"]
     if info.parameters.nmagnetic > 0:
         d.append("kernel")
+    d.append("cutoff")
     return d
 
 
@@ -187,6 +205,13 @@ def cases(ctx):
                     if lead:
                         case["lead"] = dict(zip(lead, idx))
                     out.append(case)
+        angle_sets = [["theta"], ["phi"], ["theta", "phi"]]
+        if build.info(m).parameters.is_asymmetric:
+            angle_sets += [["psi"], ["theta", "phi", "psi"]]
+        for aset in angle_sets:
+            for jspec in CUTFAM_JITTER:
+                for sspec in CUTFAM_SIZE:
+                    out.append({"kind": "cutfam", "model": m, "angles": aset, "jitter": jspec, "size": sspec})
         out.append({"kind": "oned", "model": m})
     for m in unoriented_models(ctx):
         out.append({"kind": "unoriented", "model": m})
@@ -254,10 +279,12 @@ def size_choice(info, spec, njit=0):
     return vol[:max(1, info.parameters.max_pd - njit)]
 
 
-def reference(sh, info, pars, view, jit, size, Q):
+def reference(sh, info, pars, view, jit, size, Q, cutoff=0.0):
     """
     view = (theta, phi, psi); jit = [(values, weights)] for dtheta, dphi, dpsi; size = None or [(name, values, weights)]
-    Returns I[n], mag[n] (sum of |terms|), fmax (largest |F2| met), npoints
+    A mesh point takes part iff (product of its distribution weights) x |cos(dtheta)| > cutoff.
+    Returns I[n], mag[n] (sum of |terms|), fmax (largest |F2| met), npoints, ncut, tie   (tie: some weight is
+    within rounding of the cutoff, so which side it falls on depends on the order of the multiplications)
     """
     theta, phi, psi = view
     V = Rz(phi) @ Ry(theta) @ Rz(psi)
@@ -278,7 +305,8 @@ def reference(sh, info, pars, view, jit, size, Q):
     mag = np.zeros(nq)
     norm = 0.0
     fmax = 0.0
-    npoints = 0
+    npoints = ncut = 0
+    tie = False
     for combo in itertools.product(*sgrids):
         sw = float(np.prod([w_ for _, w_ in combo])) if combo else 1.0
         p = sh.pvec(dict(pars, **{nm: float(v_) for nm, (v_, _) in zip(snames, combo)}))
@@ -289,6 +317,11 @@ def reference(sh, info, pars, view, jit, size, Q):
         F2 = sh.Ivec(qabc, p).reshape(len(wj), nq)
         fmax = max(fmax, float(np.max(np.abs(F2))))
         w = sw * wj
+        keep = w > cutoff
+        if cutoff > 0 and np.any(np.abs(w - cutoff) <= 1e-12 * cutoff):
+            tie = True
+        ncut += int(np.sum(~keep))
+        w = np.where(keep, w, 0.0)
         num += w @ F2
         mag += np.abs(w) @ np.abs(F2)
         norm += float(np.sum(w)) * shell
@@ -296,14 +329,14 @@ def reference(sh, info, pars, view, jit, size, Q):
         return None
     scale = pars["scale"]
     return (scale * num / norm + pars["background"], abs(scale) * mag / abs(norm) + abs(pars["background"]),
-            abs(scale) * fmax / abs(norm), npoints)
+            abs(scale) * fmax / abs(norm), npoints, ncut, tie)
 
 
 # ------------------------------------------------------------------------------------------------
 
 def run_case(case, ctx):
     kind = case["kind"]
-    if kind == "orient":
+    if kind in ("orient", "cutfam"):
         return _run_orient(case, ctx)
     if kind == "oned":
         return _run_oned(case, ctx)
@@ -323,6 +356,8 @@ def _clause(cfg):
     c = ("jitter+size" if cfg["size"] else "jitter") if jit else ("size" if cfg["size"] else "view")
     if cfg["kernel"] == "mag":
         c += "/magnetic-kernel"
+    if cfg["cutoff"] > 0:
+        c += "/cutoff"
     return c
 
 
@@ -345,14 +380,22 @@ def _run_orient(case, ctx):
     orbit = [(1 + 4 * g + j, 1 + 4 * g + (j + 2) % 4, 1 + 4 * g + (j + 1) % 4) for g in range((nq - 1) // 4)
              for j in range(4)]
     base = base_cfg(ctx)
-    dims = case["dims"]
+    dims = case.get("dims", [])
     sld_names = [p.name for p in info.parameters.kernel_parameters if p.type == "sld"]
-    lead = case.get("lead") or {}
-    alts = [[alternatives(ctx, d)[lead[d]]] if d in lead else alternatives(ctx, d) for d in dims]
-    for combo in itertools.product(*alts):
-        cfg = dict(base)
-        cfg.update(zip(dims, combo))
-        sub = {d: cfg[d] for d in dims}
+    todo = []
+    if case["kind"] == "cutfam":
+        for jspec, sspec, cut in itertools.product([case["jitter"]], [case["size"]], alternatives(ctx, "cutoff")):
+            cfg = dict(base, size=sspec, cutoff=cut)
+            cfg.update({"j" + a: jspec for a in case["angles"]})
+            todo.append((cfg, {"jitter": jspec, "size": sspec, "cutoff": cut}))
+    else:
+        lead = case.get("lead") or {}
+        alts = [[alternatives(ctx, d)[lead[d]]] if d in lead else alternatives(ctx, d) for d in dims]
+        for combo in itertools.product(*alts):
+            cfg = dict(base)
+            cfg.update(zip(dims, combo))
+            todo.append((cfg, {d: cfg[d] for d in dims}))
+    for cfg, sub in todo:
         fk = {"model": name, "clause": _clause(cfg)}
         pars = _defaults(info)
         pars["theta"], pars["phi"] = cfg["theta"], cfg["phi"]
@@ -398,21 +441,33 @@ def _run_orient(case, ctx):
         br.append("jitter-angles:%d" % njit)
         if cfg["theta"] in (0.0, 180.0):
             br.append("theta-pole")
-        desc = "call_kernel(%s 2-D, %s) at (qx,qy)=" % (name, {k: v for k, v in pars.items()
-                                                                if k in ("theta", "phi", "psi") or "_pd" in k
-                                                                or k.endswith("_M0")})
+        shown = {k: v for k, v in pars.items() if k in ("theta", "phi", "psi") or "_pd" in k or k.endswith("_M0")}
+        desc = "call_kernel(%s 2-D, %s%s) at (qx,qy)=" % (name, shown,
+                                                          ", cutoff=%r" % cfg["cutoff"] if cfg["cutoff"] else "")
         try:
             with np.errstate(all="ignore"):
-                ref = reference(sh, info, ref_pars, view, jit, size, Q)
+                ref = reference(sh, info, ref_pars, view, jit, size, Q, cfg["cutoff"])
         except Exception as exc:  # noqa - the reference is the harness
             raise HarnessError("reference failed for %s %r: %r" % (name, sub, exc))
         if ref is None or not np.all(np.isfinite(ref[0])):
-            r.inconc("reference-undefined")
+            r.inconc("all-points-below-cutoff" if cfg["cutoff"] > 0 else "reference-undefined")
             continue
-        Iref, mag, fmax, npoints = ref
+        Iref, mag, fmax, npoints, ncut, tie = ref
+        if tie:
+            r.inconc("weight-ties-with-cutoff")
+            continue
+        if cfg["cutoff"] > 0:
+            br.append("cutoff")
+            if ncut and njit:
+                # the kernel nests the loops by decreasing length: the longest distribution is the innermost loop
+                jlen = max(len(x) for x, _ in jit)
+                slen = max([len(x) for _, x, _ in (size or [])] or [1])
+                br.append("cutoff-excluded-jittered")
+                br.append("cutoff-excluded:" + ("size-loop-innermost" if slen > jlen else
+                                                "jitter-loop-innermost" if jlen > slen else "equal-lengths"))
         try:
-            A = np.array(call_kernel(k1, pars, cutoff=0.0), float)
-            B = np.array(call_kernel(k2, dict(pars, phi=pars["phi"] + alpha), cutoff=0.0), float)
+            A = np.array(call_kernel(k1, pars, cutoff=cfg["cutoff"]), float)
+            B = np.array(call_kernel(k2, dict(pars, phi=pars["phi"] + alpha), cutoff=cfg["cutoff"]), float)
         except Exception as exc:  # noqa
             r.fail("%s... raised %r" % (desc, exc), dict(fk, clause=fk["clause"] + ":raises"), sub, branches=br)
             continue
@@ -422,8 +477,8 @@ def _run_orient(case, ctx):
         if not np.all(err <= tol):
             j = int(np.argmax(err - tol))
             r.fail("%s(%.6g, %.6g): kernel %.15g, reference %.15g (rel. diff %.3g; R=Rz(phi)Ry(theta)Rz(psi)Rx(dphi)"
-                   "Ry(dtheta)Rz(dpsi), mesh of %d points)\n  all points: kernel %s\n  reference %s"
-                   % (desc, Q[j, 0], Q[j, 1], A[j], Iref[j], err[j] / max(abs(Iref[j]), 1e-300), npoints,
+                   "Ry(dtheta)Rz(dpsi), mesh of %d points, %d below the cutoff)\n  all points: kernel %s\n  reference %s"
+                   % (desc, Q[j, 0], Q[j, 1], A[j], Iref[j], err[j] / max(abs(Iref[j]), 1e-300), npoints, ncut,
                       A[:6], Iref[:6]), fk, sub, nt=nt, trans=2 * npoints, branches=br)
             continue
         bad = [(i, j) for i, j, _ in orbit if not abs(A[i] - A[j]) <= tol[i] + tol[j]]
@@ -615,6 +670,8 @@ def finish(ctx, report):
     report.require("cos(dtheta)<0", 100, "|cos(dtheta)| with dtheta beyond 90 degrees")
     report.require("jitter-truncated-by-limits", 20, "jitter mesh cut by the angle limits")
     report.require("size-dispersed", 100, "size dispersity combined with orientation")
+    report.require("cutoff-excluded:size-loop-innermost", 100, "cutoff dropped >=1 point of a jittered mesh, size loop innermost")
+    report.require("cutoff-excluded:jitter-loop-innermost", 100, "cutoff dropped >=1 point of a jittered mesh, jitter loop innermost")
     report.require("magnetic-kernel", 100, "Imagnetic instantiation")
     report.require("theta-pole", 100, "theta = 0 / 180")
     report.require("angle-without-loop-slot", 100, "all dispersity loops taken, an un-jittered angle relies on the zero default")
